@@ -20,6 +20,7 @@ FRAGMENTS = [
     ("C[Si](C)(C)C", ""), ("C[Si](C)C", ""), ("C[N+](C)(C)C", ""), ("CC(=O)[O-]", ""), ("C[N+](=O)[O-]", ""), ("[NH3+]C", "s"),
     ("S(=O)C", "s"), ("CS(=O)", "s"), ("S(=O)(=O)C", ""), ("CCS(=O)(=O)", ""), ("P(C)C", "s"), ("CP(=O)(C)", ""), ("CSSC", ""), ("OP(=O)(O)C", ""),
     ("CCO[H]", ""), ("CN[H]", "s"), ("NCCCCCCN[H]", ""), ("CC(C)C[H]", ""),  # a trailing explicit hydrogen (the SI writes '[>]NCCCCCCN[H]'): no written atom follows it
+    ("N([2H])CO", ""), ("CC([2H])(C)CO", ""), ("OC([3H])C", "s"),  # isotopic hydrogens are atoms (RDKit keeps them) written BEFORE possible descriptor atoms
     ("[13CH3]C", "s"), ("C[13C](=O)OC", ""), ("[2H]C", "s"), ("CC(C)(C(=O)OC)", "t"), ("CC(C(=O)OC)", "t"), ("C(=O)", "s"), ("CCOCC", "t"),
 ]
 # the same molecule written with another atom order (descriptor atom indices follow the written order, so a cache keyed by the
